@@ -46,6 +46,11 @@ class FakeStdout(anyio.abc.ByteReceiveStream):
                     piece = piece[:max_bytes]
                     c.sim.probe("read_capped_at_max_bytes")
                 c.sim.rec("proc", "stdout-read", len(piece))
+                burn = (c.cfg.get("read_burn_at") or {}).get(len(c.reads))
+                if burn:
+                    # the loop is busy for a moment between the data becoming readable and the reader getting on with it
+                    c.sim.loop.burn(burn)
+                    c.sim.fault("event_loop_busy_during_read")
                 c.reads.append(piece)
                 c._transport_poll_eof()
                 return piece
@@ -186,6 +191,16 @@ class FakeChild:
             if p:
                 self.out_pieces.append(bytes(p))
         self._wake_out()
+
+    def write_stderr(self, data: bytes):
+        """diagnostics the child writes to its stderr: they end up wherever the parent pointed that descriptor"""
+        if not self.alive:
+            return
+        if self.stderr_disposition == "stdout":
+            self.sim.rec("child", "stderr-merged-into-stdout", len(data))
+            self.write_stdout([data])
+        else:
+            self.sim.rec("child", "stderr-write", len(data))
 
     def close_stdout(self):
         self.out_eof = True
